@@ -2,7 +2,7 @@
    line written by the Go harness) to the canonical text of the model's
    observable.  Used identically by the extracted OCaml driver and by the
    in-Coq vm_compute evaluation. *)
-From Lungo.Model Require Import Compare RunAccess ApiOps RunOplog RunSpec RunSort File RunMatch Fs FsRun.
+From Lungo.Model Require Import Compare RunAccess ApiOps RunOplog RunSpec RunSort File RunMatch Fs FsRun Stream.
 From Lungo.Spec Require Import RunRef.
 Open Scope string_scope.
 
@@ -36,6 +36,8 @@ Definition runners : list (sexp -> option string) :=
   ; run_match
   ; run_matchref
   ; run_fs
+  ; run_stream
+  ; run_sched
   ].
 
 Fixpoint first_some (rs : list (sexp -> option string)) (x : sexp) : string :=
